@@ -255,6 +255,7 @@ func (c15) Run(t *testing.T, cs Case, trace bool) *Outcome {
 		var wrap func(state.State) state.State
 		if c.BatchMs > 0 {
 			wrap = func(st state.State) state.State {
+				out.fault("watch:batches-coalesced(run)")
 				return batchingState{State: st, window: time.Duration(c.BatchMs) * time.Millisecond}
 			}
 		}
